@@ -630,6 +630,36 @@ func genStmt(r *RNG, kw string, o histOpts, ts uint32) *hStmt {
 func genHistory(r *RNG, o histOpts, cfg string) *hist {
 	h := &hist{cfg: cfg, ext: map[string][]string{}}
 	h.tables = genTables(r, o)
+	// table ids start over when the master restarts: some tables get a SUCCESSOR - another table (other name, other
+	// columns) that is assigned the same id after the first restart; the original is then not written any more
+	nBase := len(h.tables)
+	succ := map[int]int{}
+	restarted := false
+	if o.files && r.Chance(1, 3) {
+		for i := 0; i < nBase; i++ {
+			if r.Bool() {
+				t := h.tables[i]
+				v := &hTable{id: t.id, db: t.db, name: t.name + "-ar"}
+				if r.Chance(1, 4) {
+					v.db, v.name = t.db+"ar", t.name
+				}
+				for c, nc := 0, r.Range(1, o.maxCols); c < nc; c++ {
+					k := randColumn(r, o.allowTZ)
+					v.cols = append(v.cols, hCol{typ: k.typ, md: k.md, nullable: r.Bool(), name: "a" + strconv.Itoa(c) + "-" + randName(r, r.Intn(4)),
+						unsigned: r.Chance(1, 3) && (k.typ == 1 || k.typ == 2 || k.typ == 9 || k.typ == 3 || k.typ == 8)})
+				}
+				succ[i] = len(h.tables)
+				h.tables = append(h.tables, v)
+			}
+		}
+	}
+	pickTable := func() int {
+		ti := r.Intn(nBase)
+		if v, ok := succ[ti]; ok && restarted {
+			return v
+		}
+		return ti
+	}
 	if r.Chance(1, 5) {
 		// binlog files beyond 2 GiB / close to the 4 GiB limit of the 32-bit next_position field
 		h.bias = []int64{1<<31 - 200, 1<<31 - 20, 1 << 31, 3 << 30, 1<<32 - 1<<21, int64(r.Intn(1 << 31))}[r.Intn(6)]
@@ -666,7 +696,7 @@ func genHistory(r *RNG, o histOpts, cfg string) *hist {
 					u.changes = append(u.changes, hChange{stmt: genStmt(r, kw, o, ts)})
 					continue
 				}
-				ti := r.Intn(len(h.tables))
+				ti := pickTable()
 				ann := !seen[ti] || r.Chance(1, 2)
 				seen[ti] = true
 				u.changes = append(u.changes, hChange{rows: genRows(r, h, o, ti, ts, ann)})
@@ -676,7 +706,7 @@ func genHistory(r *RNG, o histOpts, cfg string) *hist {
 			kw := []string{"create", "alter", "drop", "truncate", "rename", "set"}[r.Intn(6)]
 			h.units = append(h.units, hUnit{kind: "ddl", stmt: genStmt(r, kw, o, ts)})
 		case k < 8:
-			h.units = append(h.units, hUnit{kind: "ar", rows: genRows(r, h, o, r.Intn(len(h.tables)), ts, true)})
+			h.units = append(h.units, hUnit{kind: "ar", rows: genRows(r, h, o, pickTable(), ts, true)})
 		case k < 9:
 			kw := []string{"insert", "update", "delete"}[r.Intn(3)]
 			h.units = append(h.units, hUnit{kind: "dml", stmt: genStmt(r, kw, o, ts)})
@@ -684,7 +714,12 @@ func genHistory(r *RNG, o histOpts, cfg string) *hist {
 			fileNo++
 			// a real ROTATE event, or a master restart (STOP event, next file announced by an artificial rotate only)
 			// (every tenth real file name ends in 0: the name is opaque, trailing characters included)
-			h.units = append(h.units, hUnit{kind: r.Pickstr("rot", "rot", "rst"), file: fmt.Sprintf("bin.%06d", fileNo*r.Pick(1, 1, 10, 100))})
+			kind := r.Pickstr("rot", "rot", "rst")
+			if len(succ) > 0 && !restarted {
+				kind = "rst"
+			}
+			restarted = restarted || kind == "rst"
+			h.units = append(h.units, hUnit{kind: kind, file: fmt.Sprintf("bin.%06d", fileNo*r.Pick(1, 1, 10, 100))})
 		case o.ignorable:
 			switch r.Intn(6) {
 			case 0:
@@ -850,6 +885,12 @@ func showTx(t *gobinlog.Transaction) string {
 func runParse(h *hist, packets [][]byte, file string, off int64, failAt int, mapperMode string, cancelEnd bool, cancelOnFail ...bool) (res string, calls []string, mcalls []string) {
 	m := &tblMapper{tables: h.tables, mode: mapperMode}
 	s, _ := gobinlog.NewStreamer("unused", 7, m)
+	return runParseOn(s, m, packets, file, off, failAt, cancelEnd, cancelOnFail...)
+}
+
+// runParseOn: one more attempt on an existing Streamer (its mapper m may have been given other tables meanwhile).
+func runParseOn(s *gobinlog.Streamer, m *tblMapper, packets [][]byte, file string, off int64, failAt int, cancelEnd bool, cancelOnFail ...bool) (res string, calls []string, mcalls []string) {
+	m.calls = nil
 	s.SetBinlogPosition(gobinlog.Position{Filename: file, Offset: off})
 	ch := make(chan replication.BinlogEvent)
 	ctx, cancel := context.WithCancel(context.Background())
